@@ -387,9 +387,10 @@ def is_ascii(s):
     return all(ord(c) < 128 for c in s)
 
 
-def part_small(env, ctx):
+def part_small(env, ctx, follow_up):
     rng = ctx.rng
     glog = env.glog
+    n_bad = {"int": 0, "from_str": 0}
     # int(str) as argparse calls it for -n, int(bytes) as parse_priority calls it
     strs = [gen_intlike(rng) for _ in range(ctx.pick(1500, 8000))] + ["", "0", "-0", "+0", "1_0", "_1", "1_", "1__0", " 1 ", "- 1", "+-1", "--1"]
     strs = [s for s in strs if is_ascii(s)]
@@ -406,6 +407,9 @@ def part_small(env, ctx):
         except ValueError:
             real_b = "none"
         if real != r or real_b != r:
+            n_bad["int"] += 1
+            if n_bad["int"] > 3 or (" " not in s and follow_up(["-t", "-n", s, "f"], real, r)):
+                continue
             ctx.disagree(f"small:int:{s!r}", f"int({s!r}) = {real} / int(bytes) = {real_b}, model {r}", {"string": s}, impl=[real, real_b], model=r,
                          spec_violated=False, site="int() contract (hr -n, '<prio>' prefix)")
     # PenlogPriority.from_str
@@ -425,8 +429,11 @@ def part_small(env, ctx):
         except ValueError:
             real = "none"
         if real != r:
+            n_bad["from_str"] += 1
+            if n_bad["from_str"] > 3 or (s[:1] != "-" and follow_up(["-p", s, "f"], real, r)):
+                continue
             ctx.disagree(f"small:from_str:{s!r}", f"PenlogPriority.from_str({s!r}) = {real}, model {r}", {"string": s}, impl=real, model=r,
-                         spec_violated=True, site="PenlogPriority.from_str")
+                         spec_violated=False, site="PenlogPriority.from_str")
     # Path.suffix / Path.name and the decompressor chosen for it
     names = []
     stems = ["a", "T", "log", ".a", "", ".", "..", "a.json", "a.b.c", "x y", "-"]
@@ -721,11 +728,17 @@ def part_format_direct(env, ctx):
         ctx.kind(f"format-direct:level{a['levelno']}" + (":trace" if a["exc"] else ""))
         real = "bad-level" if out is None else out.encode().hex()
         if real != r:
+            model_text = bytes.fromhex(r).decode() if r not in ("bad-level", "bad-op", "-") else r
+            member = "outcome"
+            try:
+                ro, mo = json.loads(out, object_pairs_hook=list), json.loads(model_text, object_pairs_hook=list)
+                member = next((f"{k1}" if k1 == k2 else f"key-order:{k1}/{k2}" for (k1, v1), (k2, v2) in zip(ro, mo) if (k1, v1) != (k2, v2)), "member-count")
+            except (TypeError, ValueError):
+                pass
             what = f"_JSONFormatter.format(level {a['levelno']}, tags {a['tags']!r}, exc {a['exc'] is not None}, utcoffset {a['dt'].utcoffset()})"
-            ctx.disagree(f"format-direct:level={a['levelno']}:tags={'none' if a['tags'] is None else len(a['tags'])}:exc={a['exc'] is not None}",
-                         what + " differs from the model's JSON object", {"record": {k: (v if k != "dt" else dt_toks(v)) for k, v in a.items()}},
-                         impl=(out or "ValueError")[:400], model=(bytes.fromhex(r).decode() if r not in ("bad-level", "bad-op", "-") else r)[:400],
-                         spec_violated=a["levelno"] in (5, 10, 20, 25, 30, 40, 50), site="_JSONFormatter.format")
+            ctx.disagree(f"format-direct:{member}", what + f" differs from the model's JSON object (first difference: {member})",
+                         {"record": {k: (v if k != "dt" else dt_toks(v)) for k, v in a.items()}},
+                         impl=(out or "ValueError")[:400], model=model_text[:400], spec_violated=False, site="_JSONFormatter.format")
     ctx.traces_validated += len(lines_real)
 
 
@@ -944,8 +957,8 @@ def derive(log, how):
 def role_of(d):
     k = d["kind"]
     if k == "log":
-        det = "zst" if d["name"].endswith(".zst") and len(d["name"]) > 4 else "gz" if d["name"].endswith(".gz") and len(d["name"]) > 3 else "plain"
-        return f"<{d['stored']}{'' if det == d['stored'] else '-named-' + d['name']},prefix={d['pfx']}>"
+        std = ("T" if d["pfx"] else "F") + {"plain": ".json", "zst": ".json.zst", "gz": ".json.gz"}[d["stored"]]
+        return f"<{d['stored']},prefix={d['pfx']}" + ("" if d["name"] == std else f",name={d['name']}") + ">"
     if k == "raw":
         return f"<bytes:{d['hex'][:24] or 'empty'}:{d['name']}>"
     if k == "derived":
@@ -1010,9 +1023,16 @@ def run_hr_case(env, ctx, write_log, calls, off, descs, probes):
     return out
 
 
+_HR_SEEN = {}
+
+
 def report_hr(ctx, bad, calls, off, descs, label):
+    seen = _HR_SEEN.setdefault(id(ctx), set())
     for b in bad:
         sig = hr_sig(b)
+        if sig in seen:  # one report per way of failing; the first input found stands for the class
+            continue
+        seen.add(sig)
         sh = shape(b["sym"], descs)
         key = f"hr2:{sig}:{' '.join(sh)}" + (f":cut={b['cut']}" if b["cut"] is not None else "") + f":len={b['n']}"
         ctx.disagree(key, f"hr {' '.join(sh)}" + (f" | head -{b['cut']}" if b["cut"] is not None else "") + f" on a {b['n']}-record log ({label}): {sig}",
@@ -1183,7 +1203,7 @@ def part_hr(env, ctx, write_log, simple_calls, gen_call, budget_s):
                 if a.startswith("@"):
                     nf += 1
                     d = descs[int(a[1:])]
-                    ctx.kind("hr2:file:" + (d["kind"] if d["kind"] != "log" else role_of(d).split(",")[0].strip("<")[:12]))
+                    ctx.kind("hr2:file:" + (d["kind"] if d["kind"] != "log" else d["stored"] + ("-as-" + (Path(d["name"]).suffix or "none") if d["name"][:1] == "m" else "")))
             ctx.kind(f"hr2:files:{nf}", "hr2:cut" if cut is not None else "hr2:nocut")
             ctx.nontrivial(("hr2m", i, tuple(argv), cut))
         report_hr(ctx, bad, calls, off, descs, "mixed inputs")
@@ -1191,17 +1211,18 @@ def part_hr(env, ctx, write_log, simple_calls, gen_call, budget_s):
 
 
 def argv_follow_up(env, ctx, write_log, simple_calls):
-    """for an argument vector on which argparse and the model disagree: run it end to end on a 14-record log; a
-    difference in the emitted records is a failing input of the property"""
+    """for an argument vector on which argparse and the model disagree: run it (and, when it names no mode, with each
+    mode option put in front) end to end on a 120-record log; a difference in what is emitted is a failing input"""
     placeholders = {"f", "g", "h", "a.json", "b.zst", "b.json.zst", "c.gz", "x.gz", "./d", "e f", "./a", "-", "a//b", "./-", "-x.json"}
-    calls = simple_calls([[20, 30, 10, 40, 5, 50, 25][i % 7] for i in range(14)])
+    calls = simple_calls([[20, 30, 10, 40, 5, 50, 25][i % 7] for i in range(120)])
     descs = [{"kind": "log", "pfx": 1, "stored": "plain", "name": "T.json"}]
 
     def follow(argv, _real, _model):
         sym = ["@0" if a in placeholders else a for a in argv]
         if "--" in sym:
             return False
-        bad = run_hr_case(env, ctx, write_log, calls, 3600, descs, [(sym, None)])
+        probes = [(sym, None)] + [([m] + sym, None) for m in ("-t", "--head", "-r")]
+        bad = run_hr_case(env, ctx, write_log, calls, 3600, descs, probes)[:1]
         report_hr(ctx, bad, calls, 3600, descs, "argument vector on which argparse and the model differ")
         return bool(bad)
 
